@@ -353,6 +353,12 @@ sqf::runtime::runtime::result sqf::runtime::runtime::execute(sqf::runtime::runti
                 for (size_t i = 0; i < m_contexts.size(); i++)
                 {
                     m_context_active = m_contexts[i];
+                    if (m_context_active->terminate())
+                    { // A terminated script executes nothing from its next scheduling point on
+                        m_context_active->clear_frames();
+                        m_context_active->clear_values(true);
+                        m_context_active->unsuspend();
+                    }
 #ifdef SQFVM_RUNTIME_VERIF
                     if (sqf::runtime::verif::get_hooks().on_visit) { sqf::runtime::verif::get_hooks().on_visit(*this, i); }
 #endif // SQFVM_RUNTIME_VERIF
